@@ -20,3 +20,27 @@ package tss
 // keccak256 of the concatenation of its arguments: abstract (uninterpreted hash)
 //@ func Hash
 //@ abstract
+
+// curve / encoding helpers: abstract (uninterpreted functions of their arguments)
+//@ func PaddingBytes
+//@ abstract
+//@ func NewScalar
+//@ abstract
+//@ func (p Point) Address
+//@ abstract
+//@ func (p Point) publicKey
+//@ abstract
+//@ func NewError
+//@ abstract
+
+// C03: the challenge is keccak over the fixed BAND-TSS preimage
+//   context || 0x00 || "challenge" || 0x00 || address(R) || (parity byte of P + 25) || X(P) left-padded to 32 bytes || keccak(message)
+// converted to a scalar. (keccak, address derivation, padding and scalar conversion are abstract functions; the
+// clause pins which bytes are hashed, in which order, and that X(P) is padded to 32 bytes.)
+//@ func HashChallenge
+//@ ensures err == nil ==> result == absfn("NewScalar", absfn("Hash", bytes(ContextString), bzmk(0), bytes("challenge"), bzmk(0),
+//@        absfn("Point.Address", rawGroupPubNonce), bzmk(wrapu8(rawGroupPubKey[0] + 25)),
+//@        absfn("PaddingBytes", ext("big.Int.Bytes", ext("PublicKey.X", absfn("Point.publicKey", rawGroupPubKey))), 32),
+//@        absfn("Hash", data)))
+// a byte string that parses as a public key is a compressed (33-byte) or uncompressed (65-byte) encoding
+//@ axiom pubKeyLen: forall p Point :: absfn("Point.publicKey#1", p) == nil ==> len(p) >= 33
